@@ -1,7 +1,7 @@
 extra={
  "C20":{"note":"Trusted: the kernel, /proc, /bin/sh and sleep of the sandbox. Not deterministic simulation: real time and real scheduling; the seed fixes the scenario only. Known finding F10 (open) is reported as KNOWN-FINDING.",
         "technique":"seeded generation of process-tree scenarios executed for real (the simulator cannot control the kernel); /proc oracle; repeat-3 confirmation"},
- "C17":{"note":"Trusted: testing/synctest, the harness' own YAML writer (reflection over yaml tags) and validity predicate. File modification times are real, not simulated. SIGUSR1-triggered reloads are not exercised. Part (b) is plain input generation."},
+ "C17":{"note":"Trusted: testing/synctest, the harness' own YAML writer (reflection over yaml tags) and validity predicate. File modification times are set from the simulated clock by the harness. Goroutines inside the app package are not interleaved by the simulator (only the moment a reload is installed is decided). SIGUSR1-triggered reloads are not exercised. Part (b) is plain input generation."},
  "C18":{"note":"Trusted: /bin/sh, od, tr, printf of the sandbox; the kernel schedules the children, so a replay reproduces the scenario, not the exact timing. Process-level environment is set by the harness in its own process.",
         "technique":"deterministic simulation with fault injection (seeded scheduler at hook points) around real child processes; oracle over the captured output"},
  "C19":{"note":"Trusted: coreutils of the sandbox; replay reproduces the scenario, not kernel timing. Output that is not valid UTF-8 is not generated: the JSON log API cannot carry it.",
